@@ -30,9 +30,9 @@ NAMES = {
     "tilde": ["x~", "~y~", "n.~z~"],
     "long": ["L" * 250, "M" * 251, "N" * 252, "O" * 254, "P" * 255],
 }
-BSETS = {"none": [], "one": [1], "gap": [1, 3, 7], "large": [1, 2 ** 62], "many": list(range(1, 13)), "u64max": [5, 2 ** 64 - 1]}
+BSETS = {"none": [], "one": [1], "gap": [1, 3, 7], "large": [1, 2 ** 62], "many": list(range(1, 13)), "u64max": [5, 2 ** 64 - 1], "zero": [0]}
 
-BAK = re.compile(rb"^(.*)\.~([1-9][0-9]*)~$", re.S)
+BAK = re.compile(rb"^(.*)\.~([1-9][0-9]*|0)~$", re.S)
 
 
 def backups_of(listing, name):
